@@ -30,7 +30,8 @@ CONSTANTS Threads,      \* set of thread names (strings)
           Replies,      \* [Threads -> Seq(Seq(tag))]: shell: Replies[t][1] = chunks written before the device closes;
                         \*   sync: Replies[t][j] = payload tags the service writes after consuming host WRITE j
           DEV_K1, DEV_F5, REGISTRY,
-          RidBase       \* remote id of stream l is RidBase + l
+          RidBase,      \* remote id of stream l is RidBase + l
+          GIVEUP        \* threads whose wait may time out (a slow device): they raise, abandon their stream and never come back to it
 
 NoPkt == [cmd |-> "none", a0 |-> 0, a1 |-> 0, d |-> 0]
 Pkt(c, a0, a1, d) == [cmd |-> c, a0 |-> a0, a1 |-> a1, d |-> d]
@@ -155,6 +156,16 @@ Raise(t) == /\ th[t].pc = "raise" /\ th' = [th EXCEPT ![t].pc = "done"] /\ A(t, 
             /\ mon' = MonExc(mon, [t |-> t, api |-> ApiOf(t), cls |-> "PushFailedError"])
             /\ UNCHANGED <<nextId, tLock, store, live, d2h, h2d, dev>>
 
+\* a wait times out: the transport read of a thread that holds the lock finds nothing in time, or the deadline check after a
+\* packet of another stream fails.  The call raises AdbTimeoutError / the transport's timeout error; nothing is sent; the stream is
+\* left as it is (its later packets are parked or discarded by whoever reads them).
+GiveUp(t) == /\ t \in GIVEUP /\ th[t].pc \in {"rd23", "rd4"} /\ (th[t].pc = "rd4" => d2h = <<>>)
+             /\ th' = [th EXCEPT ![t].pc = "done", ![t].wait = "gaveup"]
+             /\ tLock' = IF tLock = t THEN "free" ELSE tLock
+             /\ A(t, "GiveUp")
+             /\ mon' = MonExc(mon, [t |-> t, api |-> ApiOf(t), cls |-> "AdbTimeoutError"])
+             /\ UNCHANGED <<nextId, store, live, d2h, h2d, dev>>
+
 (* ---------------------------------------------------------------- the device (adbd) *)
 Owner(l) == CHOOSE t \in Threads : th[t].lid = l
 \* service output is tagged with the number of the host WRITE that triggered it: adbd sends the OKAY for WRITE k
@@ -184,7 +195,7 @@ DevSend(l) == /\ l \in DOMAIN dev
                  \/ /\ s.st = "sendClse" /\ DevPut(l, "CLSE", 0) /\ dev' = [dev EXCEPT ![l].st = "closed"] /\ AD("okay", l)
               /\ UNCHANGED <<th, nextId, tLock, store, live, h2d>>
 
-HostNext == \E t \in Threads : Alloc(t) \/ SendOpen(t) \/ SendWrte(t) \/ SendClse(t) \/ SendClseFinal(t) \/ Ack(t) \/ Rd1(t) \/ Rd23(t) \/ Rd4(t) \/ Return(t) \/ Raise(t)
+HostNext == \E t \in Threads : Alloc(t) \/ SendOpen(t) \/ SendWrte(t) \/ SendClse(t) \/ SendClseFinal(t) \/ Ack(t) \/ Rd1(t) \/ Rd23(t) \/ Rd4(t) \/ Return(t) \/ Raise(t) \/ GiveUp(t)
 DevNext == DevRecv \/ \E l \in 1..Cardinality(Threads) : DevSend(l)
 \* a thread whose program is open-only is finished once the OKAY arrived (Resolve gives "ret"); a finished system stutters
 AllDone == \A t \in Threads : th[t].pc = "done"
@@ -199,7 +210,9 @@ MonitorOK == mon.verdict = "ok"                                   \* C01 content
 RECURSIVE FlatLen(_)
 FlatLen(ss) == IF ss = <<>> THEN 0 ELSE Len(Head(ss)) + FlatLen(Tail(ss))
 \* C06: each operation gets exactly the payloads addressed to its stream, in order (what it would get alone)
-Complete == \A t \in Threads : th[t].pc = "done" => th[t].got = [i \in 1..FlatLen(Replies[t]) |-> i]
+Complete == \A t \in Threads : (th[t].pc = "done" /\ th[t].wait # "gaveup") => th[t].got = [i \in 1..FlatLen(Replies[t]) |-> i]
+\* an operation that did not give up is not held up for ever by one that did: whenever every thread is done or waiting, someone can move
+GaveUpOnly == \A t \in Threads : th[t].wait = "gaveup" => t \in GIVEUP
 NoCrossTalk == \A t \in Threads : \A i \in 1..Len(th[t].got) : th[t].got[i] = i
 \* C06: no schedule deadlocks: some thread is always able to move until all are done (the stutter step stands for "all returned")
 NoStuck == AllDone \/ ENABLED (HostNext \/ DevNext)
